@@ -8,7 +8,7 @@ git apply "$patch" || { echo "patch does not apply"; exit 2; }
 cd /verif
 for p in "$@"; do
   echo "=== $p on $(basename $(dirname $patch))"
-  timeout 1800 ./vx check $p --tier ${TIER:-quick} 2>&1 | grep -E "^(VIOLATION|UNDECIDED|OK|KNOWN|  failed)" | cut -c1-400
+  timeout 1800 ./vx check $p --tier ${TIER:-quick} 2>&1 | grep -E "^(VIOLATION|UNDECIDED|OK|KNOWN|  failed)" | cut -c1-300 | head -${MAXL:-5}
   echo "exit=${PIPESTATUS[0]}"
 done
 git -C /repo checkout -- . ; git -C /repo status --short | head -3
